@@ -186,12 +186,19 @@ def walk_rows(body, rows, atom_extra=None, call_extra=None):
             if atom_extra:
                 return atom_extra(w, sw, store, row)
             return None
-        def cm(w, c, store):
+        def cm(w, c, store, row=row):
             if c.is_(r'^error::Message::can_catch$'):
                 return ('c', row['can_catch'])
+            if c.is_(r'as Parser<.*>>::eval$', r'^Parser::eval$') and any(c.bb == e.bb for e in ev):
+                # the outcome of the inner parser as a VALUE (so that `?`, match, map_err and closures all see it); the
+                # payload marker tells a passed-through error from a newly built one
+                if row['res'] == 'Err':
+                    return ('agg', 'std::result::Result', 'Err', [('agg', 'error::Error', None, [('agg', 'error::Message', row.get('variant'), [('c', '<inner>')])])])
+                return ('agg', 'std::result::Result', 'Ok', [('c', '<inner value>')])
             if call_extra:
                 return call_extra(w, c, store, row)
             return ('callres', c.name, c.bb)
+        cm.first = True
         w = Walker(body, atom=atom, call_model=cm, variant_of=vo)
         paths = [p for p in w.run() if p.end == 'return']
         out.append((row, paths))
@@ -260,8 +267,22 @@ def k3(ctx, cfg, fs, table):
     body = ctx.look(fs.one(r'^<structs::ParseHide<P> as Parser<T>>::eval$'))
     for row, paths in walk_rows(body, [dict(res='Err', variant=v, can_catch=table[v]) for v in variants]):
         v = row['variant']
-        rewrote = any(any(st['k'] == 'assign' and st['rv']['k'] == 'agg' and st['rv'].get('adt') == 'error::Message' for st in body.blocks[b]['stmts']) for p in paths for b in p.blocks)
-        ok = rewrote == (v == 'Missing')
+        def message_of(p):
+            r = p.ret
+            try:
+                return r[3][0][3][0] if (r is not UNKNOWN and r[0] == 'agg' and r[2] == 'Err') else None
+            except (IndexError, TypeError):
+                return None
+        msgs = [message_of(p) for p in paths]
+        inner_marker = ('agg', 'error::Message', v, [('c', '<inner>')])
+        if all(m_ is not None and m_ is not UNKNOWN and m_[0] == 'agg' for m_ in msgs) and msgs:
+            rewrote = any(m_ != inner_marker for m_ in msgs)
+            shape_ok = all((m_ == inner_marker) or (m_[2] == 'Missing') for m_ in msgs)
+        else:
+            # value not tracked to the return: fall back to "a Message is constructed on the path"
+            rewrote = any(any(st['k'] == 'assign' and st['rv']['k'] == 'agg' and st['rv'].get('adt') == 'error::Message' for st in body.blocks[b]['stmts']) for p in paths for b in p.blocks)
+            shape_ok = True
+        ok = rewrote == (v == 'Missing') and shape_ok and bool(paths) and all(ret_kind(p) == 'Err' for p in paths)
         ctx.ob('K3.consult', 'ParseHide:Err(%s)' % v, ok, 'hide: inner Err(%s) is %s' % (v, 'replaced by an anonymous Missing' if rewrote else 'returned unchanged'), where=body.where(), cfg=cfg)
 
     # parse_option
